@@ -148,6 +148,33 @@ theorem interleave_independent (parse : UpperParse) (F : List DG) (hF : Family F
   have := refFrag_res_of_lookup parse _ _ d p (fragPkt d p ttl) hl
   simp only [refObs, refStep, this]
 
+/-- `no_datagram_from_holes` (no hypothesis at all: hostile, overlapping, lying fragments included): whenever the model
+    reports `reassembled`, the stream it was built from was complete by byte count **and** its stored fragments tile
+    `[0, …)` without hole or overlap, and the packet's payload is the parse of exactly their concatenation. -/
+theorem no_datagram_from_holes (parse : UpperParse) (r r' : Streams) (p p' : Pkt)
+    (h : process parse r p = (r', p', .reassembled)) :
+    ∃ s : Stream, isComplete s = true ∧ contiguous 0 s.frags ∧
+      parse s.first.proto (s.frags.map (·.payload)).flatten = some p'.inner := by
+  unfold process at h
+  split at h
+  · split at h
+    · dsimp only at h
+      split at h
+      · split at h
+        · simp at h
+        · rename_i hs' _ buf hbuf
+          split at h
+          · simp at h
+          · rename_i inner hparse
+            simp only [Prod.mk.injEq] at h
+            have hb := (allocLoop_some_iff 0 [] _ buf).mp hbuf
+            refine ⟨_, hs', hb.1, ?_⟩
+            rw [← h.2.1]
+            simpa [hb.2] using hparse
+      · simp at h
+    · simp at h
+  · simp at h
+
 /-! ### extension beyond the property's hypothesis: a key re-used by a later datagram (known finding KF-C08-1) -/
 
 /-- Wished: the model also refines the reference when datagrams share a key but do not overlap in time (`seqOK`:
